@@ -121,9 +121,12 @@ func c12HTML(r *rand.Rand, long bool) c12Doc {
 		sb.WriteString("\xEF\xBB\xBF")
 	}
 	if r.Intn(4) == 0 {
-		sb.WriteString([]string{" ", "\n", "\r\n\t", "  \n"}[r.Intn(4)])
+		sb.WriteString([]string{" ", "\n", "\r\n\t", "  \n", "\x0c", "\t\x0c \r"}[r.Intn(6)])
 	}
 	st := c12Starts[r.Intn(len(c12Starts))]
+	if r.Intn(3) == 0 {
+		st = randCase(r, st)
+	}
 	sb.WriteString(st)
 	d.prolog = st
 	for k := r.Intn(4); k > 0; k-- {
@@ -211,7 +214,7 @@ func c12XML(r *rand.Rand) c12Doc {
 	d.label = c12Label(r, true)
 	var sb strings.Builder
 	if r.Intn(4) == 0 {
-		sb.WriteString([]string{" ", "\n", "\r\n", "\t "}[r.Intn(4)])
+		sb.WriteString([]string{" ", "\n", "\r\n", "\t ", "\x0c", "\x0c\n "}[r.Intn(6)])
 		d.prolog = "leading-ws"
 	}
 	q := []string{`"`, `'`}[r.Intn(2)]
@@ -260,9 +263,13 @@ func c12Judge(c *fw.Ctx, d c12Doc, L uint32) {
 	anomalyC02(c, m, nil)
 	mt, params, err := mime.ParseMediaType(m.String())
 	if err != nil || mt != d.typ {
-		c.Count("result_type_not_"+d.typ+"_skipped", 1)
+		c.Count("result_type_not_"+d.typ, 1)
 		if d.assert {
-			c.SetAdd("skipped_result_types", mt)
+			// the generated documents are HTML / XML by construction (one of the known
+			// openings after an optional BOM and leading white space, any letter case)
+			c.Violate("markup-not-recognised", key,
+				fmt.Sprintf("document that starts with %q (after optional BOM / white space) is reported as %s, not %s, so its declared charset %q is not honoured; document %s limit %d", d.prolog, m.String(), d.typ, d.label, fw.Quote(d.data, 120), L),
+				fw.InCase{Kind: d.typ, In: d.data, Limit: L, Entry: entry, Aux: d.expect, Note: d.syntax, InQ: fw.Quote(d.data, 160)})
 		}
 		return
 	}
@@ -417,7 +424,7 @@ func init() {
 		Assumptions: []string{
 			"labels never contain '&' (the HTML tokenizer decodes character references, which would make 'the declared label' ambiguous), quotes or backticks",
 			"XML whitespace around '=', BOM+XML and letter case of the XML target are counted as informational, not asserted",
-			"documents whose result type is not text/html / text/xml are skipped and counted",
+			"the generated documents are HTML / XML by construction: a result of another type is a violation (the declared charset cannot be honoured if the markup is not recognised)",
 		},
 		Plan: func(tier string, seed int64) []fw.Batch {
 			nh, nx, nl := 50000, 50000, 1500
